@@ -100,7 +100,7 @@ def one_logs_case(b, name, logs, reload_kind):
     d = e3.Daemon(conf, b=b)
     d.wait_banner()
     d.write(b'-1 ? bogus\n1 C 10.0.0.1 1111 10.9.9.9 6667\n1 H\n-1 X drone.svc 1_1 :BLAH what\n-1 X drone.svc 1_1 :OK acct:1\n-1 ? config\n')
-    d.wait_for(lambda o: b'\nD 1 ' in o, 3.0)
+    d.wait_for(lambda o: b'\nD 1 ' in o, 20.0)
     if reload_kind == 'syntax-error':
         open(d.conf_path, 'w').write(conf + 'broken { "unterminated\n')
     elif reload_kind == 'unreadable':
@@ -110,9 +110,21 @@ def one_logs_case(b, name, logs, reload_kind):
         open(d.conf_path, 'w').write(conf2)
     if reload_kind != 'no-reload':
         d.signal(signal.SIGUSR1)
-        time.sleep(0.15)
+        # wait until the handler has run: where the section routes core.info to a file the daemon logs "Re-reading config file"
+        # right before conf_read() (single-threaded: the reload then completes before any further input is read); elsewhere a pause
+        probe = {'all-to-file': 'all.log', 'debug-up': 'dbg.log', 'core-two-files': 'a.log'}.get(name)
+        t0 = time.time()
+        while probe and time.time() - t0 < 20:
+            try:
+                if 'Re-reading config file' in open(os.path.join(d.dir, probe), errors='replace').read():
+                    break
+            except OSError:
+                pass
+            time.sleep(0.01)
+        if not probe:
+            time.sleep(0.4)
     d.write(b'-1 ? bogus2\n-1 ? stats\n')
-    d.wait_for(lambda o: o.count(b'\ns\n') >= 1, 3.0)
+    d.wait_for(lambda o: o.count(b'\ns\n') >= 1, 20.0)
     files = {}
     for f in os.listdir(d.dir):
         if f.endswith('.log'):
